@@ -263,8 +263,8 @@ func c05Check(in c05Input) (key, what string) {
 // line.  "managed": the elements are qualified identifiers restored with import management
 // (the hand-written restoreIdent path); they must lay out exactly like plain selectors.
 type c05ExprInput struct {
-	Exprlist string `json:"exprlist"` // call lit param
-	Before   []int  `json:"before"`   // 0 None, 1 NewLine
+	Exprlist string `json:"exprlist"` // call lit param index-lit index-call index-type (the type arguments of an instantiation with two or more of them: IndexListExpr.Indices)
+	Before   []int  `json:"before"`   // 0 None, 1 NewLine, 2 EmptyLine
 	After    []int  `json:"after"`
 	Managed  bool   `json:"managed"`
 }
@@ -292,6 +292,12 @@ func c05ExprElems(in c05ExprInput) (*dst.File, []dst.Node, error) {
 		src = "package a\n\n" + imp + "var x = f(" + strings.Join(args, ", ") + ")\n"
 	case "lit":
 		src = "package a\n\n" + imp + "var x = []int{" + strings.Join(args, ", ") + "}\n"
+	case "index-lit":
+		src = "package a\n\n" + imp + "var x = Pair[" + strings.Join(args, ", ") + "]{}\n"
+	case "index-call":
+		src = "package a\n\n" + imp + "var x = f[" + strings.Join(args, ", ") + "]()\n"
+	case "index-type":
+		src = "package a\n\n" + imp + "var x Pair[" + strings.Join(args, ", ") + "]\n"
 	default:
 		src = "package a\n\nfunc f(" + strings.Join(args, ", ") + ") {}\n"
 	}
@@ -315,6 +321,24 @@ func c05ExprElems(in c05ExprInput) (*dst.File, []dst.Node, error) {
 		}
 	case "lit":
 		for _, e := range last.(*dst.GenDecl).Specs[0].(*dst.ValueSpec).Values[0].(*dst.CompositeLit).Elts {
+			els = append(els, e)
+		}
+	case "index-lit", "index-call", "index-type":
+		vs := last.(*dst.GenDecl).Specs[0].(*dst.ValueSpec)
+		var x dst.Expr
+		switch in.Exprlist {
+		case "index-lit":
+			x = vs.Values[0].(*dst.CompositeLit).Type
+		case "index-call":
+			x = vs.Values[0].(*dst.CallExpr).Fun
+		default:
+			x = vs.Type
+		}
+		il, ok := x.(*dst.IndexListExpr)
+		if !ok {
+			return nil, nil, fmt.Errorf("%T where an IndexListExpr is expected", x)
+		}
+		for _, e := range il.Indices {
 			els = append(els, e)
 		}
 	default:
@@ -376,22 +400,63 @@ func c05ExprCheck(in c05ExprInput) (key, what string) {
 	}
 	openLine := -1
 	for li, l := range lines {
-		if strings.Contains(l, "f(") || strings.Contains(l, "[]int{") {
+		if strings.Contains(l, "f(") || strings.Contains(l, "[]int{") || strings.Contains(l, "Pair[") || strings.Contains(l, "f[") {
 			openLine = li
 		}
+	}
+	blank := func(a, b int) int { // number of blank lines strictly between lines a and b
+		k := 0
+		for j := a + 1; j < b; j++ {
+			if strings.TrimSpace(lines[j]) == "" {
+				k++
+			}
+		}
+		return k
 	}
 	for i := 0; i < n; i++ {
 		if lineOf(i) < 0 {
 			return "c05-lost", fmt.Sprintf("element %d not found:\n%s", i, out)
 		}
 	}
-	if (lineOf(0) > openLine) != (in.Before[0] == 1) {
+	if (lineOf(0) > openLine) != (in.Before[0] >= 1) {
 		return "c05-exprlist", fmt.Sprintf("%s list %v: first element Before=%d but it is on line %d, the opening delimiter on line %d\n%s", in.Exprlist, in, in.Before[0], lineOf(0), openLine, out)
 	}
+	if in.Before[0] >= 1 && c05ExprGofmtKeepsBlank(in.Exprlist, "open") {
+		want := 0
+		if in.Before[0] == 2 {
+			want = 1
+		}
+		if got := blank(openLine, lineOf(0)); got != want {
+			return "c05-exprlist", fmt.Sprintf("%s list (managed=%v): first element Before=%d: %d blank lines after the opening delimiter, want %d\n%s", in.Exprlist, in.Managed, in.Before[0], got, want, out)
+		}
+	}
 	for i := 0; i+1 < n; i++ {
-		want := in.After[i] == 1 || in.Before[i+1] == 1
+		want := in.After[i] >= 1 || in.Before[i+1] >= 1
 		if got := lineOf(i+1) > lineOf(i); got != want {
 			return "c05-exprlist", fmt.Sprintf("%s list (managed=%v): elements %d/%d with After=%d Before=%d: line break %v, want %v\n%s", in.Exprlist, in.Managed, i, i+1, in.After[i], in.Before[i+1], got, want, out)
+		}
+		if want && c05ExprGofmtKeepsBlank(in.Exprlist, "between") {
+			wb := 0
+			if in.After[i] == 2 || in.Before[i+1] == 2 {
+				wb = 1
+			}
+			if got := blank(lineOf(i), lineOf(i+1)); got != wb {
+				return "c05-exprlist", fmt.Sprintf("%s list (managed=%v): elements %d/%d with After=%d Before=%d: %d blank lines, want %d\n%s", in.Exprlist, in.Managed, i, i+1, in.After[i], in.Before[i+1], got, wb, out)
+			}
+		}
+	}
+	// the closing delimiter of a type-argument list is on a line of its own iff After of the last asks for a line break
+	if strings.HasPrefix(in.Exprlist, "index-") {
+		closeLine := -1
+		for li, l := range lines {
+			if strings.Contains(l, "]") {
+				closeLine = li
+			}
+		}
+		// (gofmt itself joins "f[e0, e1,\n]": with every element on the line of the opening bracket
+		// go/printer does not look at the closing one)
+		if closeLine < 0 || ((closeLine > lineOf(n-1)) != (in.After[n-1] >= 1) && (lineOf(n-1) > openLine || c05ExprGofmtKeepsBlank(in.Exprlist, "close-one-line"))) {
+			return "c05-exprlist", fmt.Sprintf("%s list (managed=%v): last element After=%d, it is on line %d, the closing bracket on line %d\n%s", in.Exprlist, in.Managed, in.After[n-1], lineOf(n-1), closeLine, out)
 		}
 	}
 	if in.Managed {
@@ -406,6 +471,45 @@ func c05ExprCheck(in c05ExprInput) (key, what string) {
 		}
 	}
 	return "", ""
+}
+
+// c05ExprGofmtKeepsBlank: does gofmt itself keep a blank line after the opening delimiter of this
+// expression list / between two of its elements written one per line?
+func c05ExprGofmtKeepsBlank(kind, where string) bool {
+	k := "expr:" + kind + ":" + where
+	if v, ok := keepsBlankCache[k]; ok {
+		return v
+	}
+	el := []string{"e0", "e1"}
+	if kind == "param" {
+		el = []string{"e0 int", "e1 int"}
+	}
+	body := "\n\t" + el[0] + ",\n\t" + el[1] + ",\n"
+	if where == "open" {
+		body = "\n\n\t" + el[0] + ",\n\t" + el[1] + ",\n"
+	} else if where == "close-one-line" {
+		body = el[0] + ", " + el[1] + ",\n"
+	} else {
+		body = "\n\t" + el[0] + ",\n\n\t" + el[1] + ",\n"
+	}
+	var txt string
+	switch kind {
+	case "call":
+		txt = "package a\n\nvar x = f(" + body + ")\n"
+	case "lit":
+		txt = "package a\n\nvar x = []int{" + body + "}\n"
+	case "index-lit":
+		txt = "package a\n\nvar x = Pair[" + body + "]{}\n"
+	case "index-call":
+		txt = "package a\n\nvar x = f[" + body + "]()\n"
+	case "index-type":
+		txt = "package a\n\nvar x Pair[" + body + "]\n"
+	default:
+		txt = "package a\n\nfunc f(" + body + ") {}\n"
+	}
+	res := isCanonical(txt)
+	keepsBlankCache[k] = res
+	return res
 }
 
 // c05ZeroWidth: an implicit empty statement (what a label before a closing brace parses to, what
@@ -454,6 +558,7 @@ func c05ZeroWidth(c *Ctx) {
 
 func c05Prop(c *Ctx) {
 	c05ZeroWidth(c)
+	defer c05ExprSpaced(c) // after the other generators: their draws from the run's PRNG stay as they were
 	c.Res.Rule = "five own-line list kinds (stmt, decl, field, spec, case) x n in 1..4 elements: exhaustive over Before/After in {None,NewLine,EmptyLine}^2 for pairs (n=2, all 81 x 9 Start/End decoration choices on the boundary), random for n=3,4; plus call/composite-literal lists with NewLine; non-trivial = distinct assignment"
 	kinds := []string{"stmt", "decl", "field", "spec", "case", "rawstmt"}
 	run := func(in c05Input) {
@@ -548,6 +653,59 @@ func c05Prop(c *Ctx) {
 				}
 			}
 		}
+	}
+}
+
+// c05ExprSpaced: expression lists with EmptyLine as well as NewLine on the elements.  The type
+// arguments of an instantiation (two and more: IndexListExpr) written one per line, exhaustively for
+// two arguments over {None, NewLine, EmptyLine} on every side and for three over {None, NewLine};
+// random assignments over all three values for every list kind.
+func c05ExprSpaced(c *Ctx) {
+	run := func(in c05ExprInput) {
+		c.Res.Evaluations++
+		c.Res.seen(fmt.Sprint(in))
+		c.Res.hist("c05-kind", fmt.Sprintf("%s managed=%v", in.Exprlist, in.Managed))
+		if key, what := c05ExprCheck(in); key != "" {
+			c.Res.fail(key, what, in)
+		}
+	}
+	for _, k := range []string{"index-lit", "index-call", "index-type"} {
+		for _, managed := range []bool{false, true} {
+			for _, nb := range [][2]int{{2, 3}, {3, 2}} {
+				n, base := nb[0], nb[1]
+				if managed && n == 3 {
+					continue
+				}
+				total := 1
+				for i := 0; i < 2*n; i++ {
+					total *= base
+				}
+				for m := 0; m < total; m++ {
+					in := c05ExprInput{Exprlist: k, Managed: managed}
+					for i, r := 0, m; i < n; i++ {
+						in.Before = append(in.Before, r%base)
+						r /= base
+						in.After = append(in.After, r%base)
+						r /= base
+					}
+					run(in)
+				}
+			}
+		}
+	}
+	kinds := []string{"call", "lit", "param", "index-lit", "index-call", "index-type"}
+	for r := 0; r < c.N(120); r++ {
+		in := c05ExprInput{Exprlist: kinds[c.Rng.Intn(len(kinds))], Managed: c.Rng.Intn(3) == 0}
+		n := 2 + c.Rng.Intn(3)
+		for i := 0; i < n; i++ {
+			in.Before = append(in.Before, c.Rng.Intn(3))
+			in.After = append(in.After, c.Rng.Intn(3))
+		}
+		if in.Exprlist == "param" {
+			in.Managed = false
+			in.After[n-1] = 0 // a line break before the closing parenthesis of a signature needs a trailing comma
+		}
+		run(in)
 	}
 }
 
